@@ -21,8 +21,9 @@ theorem mergeTraverse_tie : mergeTraverse =
      "if n.Fields[].OnTypeNames!=nil",
      "if i==j",
      "if n.Fields[].OnTypeNames==nil",
-     "if bytes.Equal()",
+     "if bytes.Equal()&&m.sameDefer()",
      "bytes.Equal",
+     "m.sameDefer",
      "m.mergeValues",
      "append",
      "if i>j",
@@ -36,8 +37,9 @@ theorem mergeTraverse_tie : mergeTraverse =
      "if i==j",
      "if bytes.Equal()",
      "bytes.Equal",
-     "if !m.canMergeScalars()",
+     "if !m.canMergeScalars()||!m.sameDefer()",
      "m.canMergeScalars",
+     "m.sameDefer",
      "m.mergeScalars",
      "append",
      "if i>j",
@@ -75,6 +77,9 @@ theorem fieldsCanMerge_tie : fieldsCanMerge =
      "bytes.Equal",
      "return",
      "if left.Value.NodeKind()!=right.Value.NodeKind()",
+     "return",
+     "if !m.sameDefer()",
+     "m.sameDefer",
      "return",
      "if !m.sameOnTypeNames()",
      "m.sameOnTypeNames",
